@@ -176,6 +176,23 @@ func runC18(t *testing.T, c ByteCase) (*h.Violation, h.Info) {
 	if err != nil {
 		return h.V("put-accepts-any-bytes", "Put of %d bytes (%s) as a first version: %v", len(val), c.Class, err), info
 	}
+	// ... and once more after the newest version of a secret was deleted (the same bytes, or other bytes, before it)
+	if _, err := cl.Put(ctx, "again", []byte("first version of again")); err != nil {
+		return h.V("harness", "put: %v", err), info
+	}
+	prev := val
+	if len(val)%2 == 1 {
+		prev = []byte("something else")
+	}
+	if pv, err := cl.Put(ctx, "again", append([]byte{}, prev...)); err != nil {
+		return h.V("put-accepts-any-bytes", "Put: %v", err), info
+	} else if err := cl.DeleteVersion(ctx, "again", pv); err != nil {
+		return h.V("harness", "delete-version %d: %v", pv, err), info
+	}
+	av, err := cl.Put(ctx, "again", append([]byte{}, val...))
+	if err != nil {
+		return h.V("put-accepts-any-bytes", "Put of %d bytes (%s) after the newest version was deleted: %v", len(val), c.Class, err), info
+	}
 	same := func(where string, got []byte, err error) *h.Violation {
 		if err != nil {
 			return h.V("bytes-round-trip-unchanged", "%s: %v", where, err)
@@ -195,6 +212,10 @@ func runC18(t *testing.T, c ByteCase) (*h.Violation, h.Info) {
 	}
 	sv, err = cl.GetVersion(ctx, "fresh", fv)
 	if v := same("Client.GetVersion of a first version", valOf(sv), err); v != nil {
+		return v, info
+	}
+	sv, err = cl.GetVersion(ctx, "again", av)
+	if v := same(fmt.Sprintf("Client.GetVersion of version %d, put after the newest version had been deleted,", av), valOf(sv), err); v != nil {
 		return v, info
 	}
 	sv, err = cl.GetIfChanged(ctx, "s", ver+7)
@@ -240,7 +261,9 @@ func runC18(t *testing.T, c ByteCase) (*h.Violation, h.Info) {
 		return v, info
 	}
 	// a second store from the cache alone
-	st2, err := setec.NewStore(ctx, setec.StoreConfig{Client: fake.NewSvc(), Secrets: []string{"s"}, Cache: fcache, PollInterval: -1, Logf: func(string, ...any) {}})
+	bctx, bcancel := context.WithTimeout(ctx, 1500*time.Millisecond)
+	defer bcancel()
+	st2, err := setec.NewStore(bctx, setec.StoreConfig{Client: fake.NewSvc(), Secrets: []string{"s"}, Cache: fcache, PollInterval: -1, Logf: func(string, ...any) {}})
 	if err != nil {
 		return h.V("bytes-round-trip-unchanged", "store from cache: %v", err), info
 	}
